@@ -362,7 +362,7 @@ func (fc *FuncCtx) evalExpr(st *State, e ast.Expr) Val {
 	case *ast.CompositeLit:
 		return fc.evalComposite(st, x, tv.Type)
 	case *ast.FuncLit:
-		return Val{Fn: x, Typ: tv.Type}
+		return fc.closureVal(st, x, tv.Type)
 	case *ast.TypeAssertExpr:
 		v := fc.evalExpr(st, x.X)
 		rt := fc.info.TypeOf(e)
